@@ -123,13 +123,13 @@ theorem accepts_table {cfg : Config} {prog : List Insn} {geo : MapGeometry} (h :
 /-- the facts `checkAt` establishes at a pc that holds a first-slot instruction with table entry `a` -/
 theorem checkAt_spec {cfg : Config} {geo : MapGeometry} {prog : List Insn} {t : Table} {pc : Nat} {i : Insn} {a : AbsState}
     (hc : checkAt cfg geo prog t pc = true) (hi : prog[pc]? = some i) (ha : t[pc]? = some (some a)) :
-    readsOk i a = true ∧ ∃ outs, transfer cfg geo pc i prog[pc + 1]? a = .ok outs ∧
+    readsOk i a = true ∧ stackAccessOk i a = true ∧ ∃ outs, transfer cfg geo pc i prog[pc + 1]? a = .ok outs ∧
       (∀ q ∈ succPcs pc i, ∃ o ∈ outs, o.1 = q) ∧
-      (∀ o ∈ outs, defsOk i a o.2 = true ∧ ∃ b, t[o.1]? = some (some b) ∧ b.leq o.2 = true) := by
+      (∀ o ∈ outs, defsOk i a o.2 = true ∧ fpEdgeOk i a o.2 = true ∧ ∃ b, t[o.1]? = some (some b) ∧ b.leq o.2 = true) := by
   unfold checkAt at hc
   rw [hi, ha] at hc
   simp only [Bool.and_eq_true] at hc
-  refine ⟨hc.1, ?_⟩
+  refine ⟨hc.1.1, hc.1.2, ?_⟩
   have h2 := hc.2
   split at h2
   · rename_i outs hto
@@ -141,7 +141,7 @@ theorem checkAt_spec {cfg : Config} {geo : MapGeometry} {prog : List Insn} {t : 
     · simp only [Bool.and_eq_true, List.all_eq_true] at h2
       intro o ho
       have h3 := h2.2 o ho
-      refine ⟨h3.1, ?_⟩
+      refine ⟨h3.1.1, h3.1.2, ?_⟩
       have h4 := h3.2
       split at h4
       · rename_i b hb; exact ⟨b, hb, h4⟩
